@@ -224,9 +224,10 @@ Reopen(r, loaders) ==
   /\ res' = [kind |-> "reopen", r |-> r]
   /\ UNCHANGED <<commits, nops, ref, trk, hub>>
 
-DeleteClocks(r) ==
-  /\ clk[r].de # Missing
-  /\ clk' = [clk EXCEPT ![r].de = Missing, ![r].dc = Missing]
+(* which: 0 = both clock files, 1 = the edit clock only, 2 = the creation clock only *)
+DeleteClocks(r, which) ==
+  /\ clk[r].de # Missing \/ clk[r].dc # Missing
+  /\ clk' = [clk EXCEPT ![r].de = IF which \in {0, 1} THEN Missing ELSE @, ![r].dc = IF which \in {0, 2} THEN Missing ELSE @]
   /\ res' = [kind |-> "delclocks", r |-> r]
   /\ UNCHANGED <<commits, nops, ref, trk, hub>>
 
